@@ -58,6 +58,10 @@ impl org_verif_test::VarlinkInterface for TestImpl {
         call.reply(token)
     }
 
+    fn ack(&self, call: &mut dyn org_verif_test::Call_Ack, _token: String) -> varlink::Result<()> {
+        call.reply()
+    }
+
     fn fail(&self, call: &mut dyn org_verif_test::Call_Fail, token: String) -> varlink::Result<()> {
         call.reply_failed(token)
     }
